@@ -146,6 +146,42 @@ def calibrateAccCode (l : List (K × Bool)) : Option K :=
   let s := sortByDist l
   (argmaxPos (cumCorrect s) (realisablePos s) s.length).map (thrAtPos s)
 
+/-! ### the rate-constrained strategies (`roc_curve(…, drop_intermediate=False)` + mask + first arg-max) -/
+
+/-- `tps` / `fps` of `roc_curve` at the cut-off that accepts the `i` nearest validation pairs -/
+def tpAt (sorted : List (K × Bool)) (i : Nat) : Nat := ((sorted.take i).filter (·.2)).length
+def fpAt (sorted : List (K × Bool)) (i : Nat) : Nat := ((sorted.take i).filter (!·.2)).length
+
+/-- `1 - fpr >= min_rate` with `fpr = fps / fps[-1]` (same operations, same order) -/
+def tnrOkCode (sorted : List (K × Bool)) (r : K) (i : Nat) : Bool :=
+  decide (r ≤ 1 - Scalar.ofNat (fpAt sorted i) / Scalar.ofNat (fpAt sorted sorted.length))
+
+/-- `tpr >= min_rate` with `tpr = tps / tps[-1]` -/
+def tprOkCode (sorted : List (K × Bool)) (r : K) (i : Nat) : Bool :=
+  decide (r ≤ Scalar.ofNat (tpAt sorted i) / Scalar.ofNat (tpAt sorted sorted.length))
+
+/-- `strategy='max_tpr'`: among the realisable cut-offs whose true-negative rate is at least `min_rate`, the first one
+with the most true positives; `none` when there is no negative pair (the rate is `NaN`, the mask empty, the code
+raises) or no cut-off qualifies.  Returns the position and the threshold stored for it. -/
+def calibrateTprCode (r : K) (l : List (K × Bool)) : Option (Nat × K) :=
+  let s := sortByDist l
+  if fpAt s s.length = 0 then none else
+  (argmaxPos (tpAt s) (fun i => realisablePos s i && tnrOkCode s r i) s.length).map fun i => (i, thrAtPos s i)
+
+/-- `strategy='max_tnr'`: among the realisable cut-offs whose true-positive rate is at least `min_rate`, the first one
+with the fewest false positives -/
+def calibrateTnrCode (r : K) (l : List (K × Bool)) : Option (Nat × K) :=
+  let s := sortByDist l
+  if tpAt s s.length = 0 then none else
+  (argmaxPos (fun i => fpAt s s.length - fpAt s i) (fun i => realisablePos s i && tprOkCode s r i) s.length).map
+    fun i => (i, thrAtPos s i)
+
+/-- true / false positives when predicting with threshold `t`; number of negative / positive validation pairs -/
+def tpOf (l : List (K × Bool)) (t : K) : Nat := (l.filter fun p => decide (p.1 ≤ t) && p.2).length
+def fpOf (l : List (K × Bool)) (t : K) : Nat := (l.filter fun p => decide (p.1 ≤ t) && !p.2).length
+def negCount (l : List (K × Bool)) : Nat := (l.filter (!·.2)).length
+def posCount (l : List (K × Bool)) : Nat := (l.filter (·.2)).length
+
 /-- number of correctly classified pairs when predicting with threshold `t` -/
 def correctCount (l : List (K × Bool)) (t : K) : Nat :=
   (l.filter fun p => decide (p.1 ≤ t) == p.2).length
